@@ -6,7 +6,7 @@ package broadcast
 //
 // Broadcast is a monitor: mtx guards ch. Ghost history (set once per channel, never changed):
 //   issuedBy(w) : the Broadcast whose getWaitCh created channel w
-//   gettime(w)  : abstract time at which w was last handed out
+//   gettime(w)  : abstract time at which w was last handed out to the current invocation (thread-local)
 // closed(w) is monotone (a channel that is closed stays closed).
 //
 // C03, first sentence, is the pair of invariants B1/B2 together with the two helper contracts:
@@ -16,9 +16,10 @@ package broadcast
 //   S1  while mtx is held nobody else can close the current channel: clients only ever see it as a
 //       receive-only channel, and the only close() in this package runs under mtx (stability, used when
 //       time passes inside a critical section: callbacks, ctx.Err())
+//   S2  likewise nobody else can hand out channels of this Broadcast while mtx is held
 //
 //@ ghostmap issuedBy: ref -> ref once
-//@ ghostmap gettime: ref -> int
+//@ ghostmap gettime: ref -> int local
 //
 //@ object Broadcast
 //@   props C03 C13
@@ -27,6 +28,7 @@ package broadcast
 //@   inv B1: this.ch != nil ==> !closed(this.ch) && issuedBy(this.ch) == this
 //@   inv B2: forall w: ref {issuedBy(w)} :: issuedBy(w) == this && allocated(w) && w != nil && w != this.ch ==> closed(w)
 //@   stable S1: this.ch != nil ==> !closed(this.ch)
+//@   stable S2: forall w: ref {issuedBy(w)} :: issuedBy(w) == this && allocated(w) && w != nil && w != this.ch ==> closed(w)
 //
 //@ func (*Broadcast).getWaitChLocked
 //@   props C03
